@@ -22,6 +22,11 @@ plus the minimum of the chaining rules needed to know who waits on whom: a per-D
 already fired, not waiting d_{k+1} or makes d_k wait; a continuation hands the result up.
 All values carry unique ids, so every delivery identifies the call that produced it.
 
+Re-entrant cancellers: a canceller may fire the next or the previous Deferred of the chain (an
+AlreadyCalledError there is caught inside the canceller and logged; a Deferred in state S swallows
+it), call cancel() on the next one, or fire its own Deferred and then raise.  The model runs those
+effects at the point of the canceller call, before deciding whether CancelledError is still due.
+
 Guards: for a canceller that RAISES the statement is silent.  Accepted: the exception propagates
 out of cancel() and the Deferred stays unfired (what the code does), or it is swallowed and the
 Deferred fails with CancelledError; required in both cases: canceller called exactly once per
@@ -42,8 +47,12 @@ RULE = ("all histories of length L (every shorter one is a prefix and is checked
         "at L=5 and x 3 configurations (outer none|nothing|fires callback, inner without canceller) at L=6 quick / x 13 at "
         "L=6 and x 3 at L=7 thorough; three-level chain (11 actions: cb/eb/cancel on d0,d1,d2, wait0 and "
         "wait1 once each) x 4 configurations at L=5 quick / L=6 thorough; all enumerated directly, "
-        "unpruned.  Plus E1 depth-first exploration with state pruning to length 12 / 16 over all 13 "
-        "two-level and 32 three-level configurations.  A history is distinct by (configuration, action "
+        "unpruned; three-level chain x 8 configurations with re-entrant cancellers (canceller fires the "
+        "next / previous Deferred of the chain, cancels the next one, or fires its own and then raises) at "
+        "L=4 quick / L=5 (two of them L=6) thorough; four-level chain x 2 configurations at L=5 thorough.  "
+        "Plus E1 depth-first exploration with state pruning to length 12 / 16 over all 13 "
+        "two-level, 40 three-level (8 with re-entrant cancellers) and 3 quick / 6 thorough four-level "
+        "configurations (cancel forwarded through three levels).  A history is distinct by (configuration, action "
         "list) and non-trivial when it contains a cancel or a firing attempt on an already fired Deferred.")
 ASSUMPTIONS = [
     "trusted base: the 3-state model plus FIFO chaining rules in this module (about 90 lines)",
@@ -54,13 +63,24 @@ SHARDS = {"quick": 4, "thorough": 16}
 FLOORS = {"steps_compared": 1000000, "already_called_errors": 100000, "swallowed_late_results": 10000,
           "canceller_calls": 10000, "cancel_forwarded_one_level": 5000, "cancel_forwarded_two_levels": 300,
           "cancel_no_effect": 10000, "raising_canceller_calls": 1000, "explore_states": 5000,
-          "histories_3level": 100000, "histories_2level": 100000}
+          "histories_3level": 100000, "histories_2level": 100000, "cancel_forwarded_three_levels": 100,
+          "reentrant_canceller_calls": 10000, "canceller_nested_already_called": 1000,
+          "histories_reentrant_cancellers": 50000}
 READY = True
 
 KINDS = ("none", "cb", "eb", "nothing", "raises")
 CONFIGS2 = ([(o, i) for o in KINDS for i in ("none", "nothing")] + [("none", i) for i in ("cb", "eb", "raises")])
 CONFIGS2_LONG = [(o, "none") for o in ("none", "nothing", "cb")]
 CONFIGS3 = [("none", "none", "none"), ("none", "none", "nothing"), ("nothing", "nothing", "cb"), ("raises", "eb", "none")]
+# re-entrant cancellers: "firedown"/"fireup" fire the next / previous Deferred of the chain from inside the
+# canceller (AlreadyCalledError caught and logged there), "cancelnext" cancels the next one, "cbraise" fires its
+# own Deferred and then raises.  (cancelnext is never configured above a raising canceller.)
+CONFIGS3_RE = [("firedown", "none", "none"), ("none", "firedown", "nothing"), ("fireup", "fireup", "fireup"),
+               ("none", "fireup", "none"), ("cancelnext", "cancelnext", "none"), ("none", "cancelnext", "nothing"),
+               ("cbraise", "none", "cbraise"), ("nothing", "cbraise", "firedown")]
+CONFIGS3_RE_LONG = [("none", "fireup", "none"), ("cancelnext", "cancelnext", "none")]
+CONFIGS4 = [("none", "none", "none", "none"), ("none", "none", "none", "nothing"), ("nothing", "none", "cb", "raises"),
+            ("none", "cancelnext", "none", "nothing"), ("fireup", "none", "firedown", "none"), ("cbraise", "eb", "none", "none")]
 NORES = "NORESULT"
 CANCELLED = "Cancelled"
 
@@ -181,6 +201,19 @@ class World:
                 dd.errback(_E(tag))
             elif kind == "raises":
                 raise Boom(tag)
+            elif kind == "firedown" or kind == "fireup":
+                j = k + 1 if kind == "firedown" else k - 1
+                if 0 <= j < self.n:
+                    try:
+                        self.ds[j].callback(_V("x%d.%d" % (k, self.step)))
+                    except self.tw["ACE"]:
+                        self.log.append(("cACE", k))
+            elif kind == "cancelnext":
+                if k + 1 < self.n:
+                    self.ds[k + 1].cancel()
+            elif kind == "cbraise":
+                dd.callback(_V(tag))
+                raise Boom(tag)
         return canceller
 
     def _real(self, verb, k):
@@ -257,6 +290,25 @@ class World:
                 self.ms[k] = "F"
                 self._deliver(k, CANCELLED)
             return True
+        if kind == "cbraise":
+            _bump("raising_canceller_calls")
+            _bump("reentrant_canceller_calls")
+            self.ms[k] = "F"
+            self._deliver(k, ("V", tag))
+            return True
+        if kind in ("firedown", "fireup", "cancelnext"):
+            _bump("reentrant_canceller_calls")
+            j = k - 1 if kind == "fireup" else k + 1
+            if 0 <= j < self.n:
+                if kind == "cancelnext":
+                    self._cancel(j, False)
+                elif self._fire(j, ("V", "x%d.%d" % (k, self.step))) is not None:
+                    self.exp.append(("cACE", k))
+                    _bump("canceller_nested_already_called")
+            if self.ms[k] == "U":
+                self.ms[k] = "F"
+                self._deliver(k, CANCELLED)
+            return False
         self.ms[k] = "F"
         self._deliver(k, ("V", tag) if kind == "cb" else ("F", tag) if kind == "eb" else CANCELLED)
         return False
@@ -276,8 +328,10 @@ class World:
         boom_ok = self._cancel(k, boomed)
         if self.fwd == 1:
             _bump("cancel_forwarded_one_level")
-        elif self.fwd >= 2:
+        elif self.fwd == 2:
             _bump("cancel_forwarded_two_levels")
+        elif self.fwd >= 3:
+            _bump("cancel_forwarded_three_levels")
         return None, boom_ok
 
     # ---- E1 interface ------------------------------------------------------------------------
@@ -407,14 +461,12 @@ def run_history(ctx, cfg, h, origin):
 def plan(ctx):
     """[(configs, length)] enumerated unpruned, and the exploration depth."""
     scale = float(os.environ.get("VERIF_SCALE", "1"))
-    if scale < 1:
-        return [(CONFIGS2, 4), (CONFIGS3[:2], 4)], 6, False
-    if ctx.quick:
-        return [(CONFIGS2, 5), (CONFIGS2_LONG, 6), (CONFIGS3, 5)], 12, True
-    return [(CONFIGS2, 6), (CONFIGS2_LONG, 7), (CONFIGS3, 6)], 16, True
+    if ctx.quick or scale < 1:  # smoke runs of the thorough tier use the quick plan
+        return [(CONFIGS2, 5), (CONFIGS2_LONG, 6), (CONFIGS3, 5), (CONFIGS3_RE, 4)], 12, True
+    return [(CONFIGS2, 6), (CONFIGS2_LONG, 7), (CONFIGS3, 6), (CONFIGS3_RE, 5), (CONFIGS3_RE_LONG, 6), (CONFIGS4[:2], 5)], 16, True
 
 
-def explore_configs():
+def explore_configs(quick=False):
     out = list(CONFIGS2) + list(CONFIGS3)
     for a in ("none", "nothing", "raises"):
         for b in ("none", "nothing", "cb"):
@@ -424,6 +476,7 @@ def explore_configs():
     for c in [("none", "none", "raises"), ("nothing", "cb", "raises"), ("eb", "none", "raises"), ("raises", "cb", "eb")]:
         if c not in out:
             out.append(c)
+    out += CONFIGS3_RE + (CONFIGS4[:1] + CONFIGS4[3:5] if quick else CONFIGS4)
     return out
 
 
@@ -452,12 +505,20 @@ def run(ctx):
                     first = False
                     ctx.sample({"config": cfg, "history": h, "last_events": w.log, "model": list(w.ms)})
             ctx.count("histories_%dlevel" % len(cfg), cnt)
+            if cfg in CONFIGS3_RE:
+                ctx.count("histories_reentrant_cancellers", cnt)
     ctx.count("enumerated_histories", n)
     ctx.exhaustive = None
-    # deeper, with state pruning (E1); configurations are dealt to shards
-    for ci, cfg in enumerate(explore_configs()):
+    # deeper, with state pruning (E1)
+    # (the reachable state space saturates from any first action, so splitting one configuration's
+    # exploration by prefix would repeat the work in every shard: whole configurations are dealt out,
+    # heaviest - the four-level ones - first)
+    cfgs = sorted(explore_configs(ctx.quick or float(os.environ.get("VERIF_SCALE", "1")) < 1), key=lambda c: -len(c))
+    for ci, cfg in enumerate(cfgs):
+        if ci % ctx.nshards != ctx.shard:
+            continue
         ctx.seen("explored_configs", "/".join(cfg))
-        explore.dfs(ctx, lambda cfg=cfg: World(ctx, cfg), deep, shard_depth=2)
+        explore.dfs(ctx, lambda cfg=cfg: World(ctx, cfg), deep, shard_depth=0)
         ctx.evaluated()
     gc.collect()
     _flush(ctx)
